@@ -5,7 +5,7 @@ usage: tools/run_seeds.py [--all-props] [seed-id ...]      writes /verif/seeded/
 """
 import json, os, subprocess, sys, glob
 VERIF = os.path.dirname(os.path.dirname(os.path.abspath(__file__)))
-WT = "/tmp/seedrun_wt"
+WT = os.environ.get("SEEDRUN_WT", "/tmp/seedrun_wt")   # several instances may run in parallel on disjoint properties
 def sh(*a, **k):
     return subprocess.run(a, capture_output=True, text=True, **k)
 def main():
@@ -29,7 +29,7 @@ def main():
             props = built if allprops else ([prop] if prop in built else [])
             det = {}
             for p in props:
-                env = dict(os.environ, VERIF_EVIDENCE_DIR="/tmp/seedrun_evidence")
+                env = dict(os.environ, VERIF_EVIDENCE_DIR=WT + "_evidence")
                 c = sh(VERIF + "/check", p, "--repo", WT, env=env)
                 lines = [l.strip() for l in c.stdout.splitlines() if "rule=" in l or "ANALYSIS-ERROR" in l]
                 det[p] = {"exit": c.returncode, "findings": lines[:6]}
@@ -42,7 +42,7 @@ def main():
     finally:
         sh("git", "-C", "/repo", "worktree", "remove", "--force", WT)
     old = {}
-    rp = VERIF + "/seeded/RESULTS.json"
+    rp = os.environ.get("SEEDRUN_OUT", VERIF + "/seeded/RESULTS.json")
     if os.path.exists(rp) and args:
         old = json.load(open(rp))
     old.update(results)
